@@ -11,6 +11,7 @@ real parser and interpreter and the reported line compared (search, not proof)."
 import glob
 import json
 import os
+import shutil
 import subprocess
 import threading
 
@@ -134,6 +135,13 @@ FAULTS = {
     "parse-multiline-call": ("$r = strlen(\n  'abc',\n  $y ? 1\n);", "parse", 2, 1),
     "throw-multiline-array": ("$r = [\n  1,\n  undefined_function_xyz(2),\n  3];", "run", 2),
     "parse-class-default": ("class K%d {\n  public $p = (1 + ;\n}", "parse", 1),
+    "undefined-class": ("$o = new UndefinedClassXyz();", "run"),
+    "undefined-method": ("$o = new Exception('x');\n$o->nopeMethod();", "run", 1),
+    # reported at the parameter that rejects the value (PHP reports the declaration line too)
+    "type-error-arg": ("function t%d(int $n) { return $n; }\n$k = 1;\nt%d('abc');", "run", 0),
+    "parse-unclosed-brace-eof": ("function u%d() {\n  $l = 1;\n", "parse", 0, 2),
+    "throw-match-arm": ("$r = match (1) {\n  0 => 1,\n  1 => undefined_function_xyz(3),\n};", "run", 2),
+    "throw-after-heredoc": ("$r = [<<<EOT\nline\nEOT\n, undefined_function_xyz(4)];", "run", 3),
     "throw-in-fn": ("function g%d() {\n  $l = 1;\n  throw new Exception('in fn');\n}\ng%d();", "run", 2),
 }
 
@@ -313,6 +321,50 @@ def run_multifile(binary, progs, bdir):
     return outs
 
 
+def run_printed(binary, progs, bdir, nthreads=8):
+    """the property's observable for single-file faults: the text `... in <file>:<line>:<col>` that the origami binary
+    prints (parser_print.go / ShowControl), for a plain-mode (.zy) or template-mode (.php) file, and for a parse
+    fault in an INCLUDED file (which must be named, not the including one)"""
+    import re
+    import tempfile
+    import threading
+    root = tempfile.mkdtemp(prefix="pr", dir=bdir)
+    outs = [None] * len(progs)
+
+    def work(lo):
+        for i in range(lo, len(progs), nthreads):
+            p = progs[i]
+            d = os.path.join(root, "p%d" % i)
+            os.makedirs(d)
+            name = "prog.php" if p["mode"] == "template" else "prog.zy"
+            open(os.path.join(d, name), "wb").write(p["src"].encode())
+            entry = name
+            if p.get("included"):
+                entry = "main.php"
+                open(os.path.join(d, entry), "w").write("<?php\n$m = 1;\n\n%s '%s';\n$after = 1;\n" % (p["included"], name))
+            o = {"expect_file": name}
+            try:
+                r = subprocess.run([binary, entry], cwd=d, stdout=subprocess.PIPE, stderr=subprocess.PIPE, timeout=30,
+                                   stdin=subprocess.DEVNULL)
+                err = r.stderr.decode("utf-8", "replace")
+                o["code"] = r.returncode
+                m = re.search(r" in (\S+?):(\d+):(\d+)", err)
+                if m:
+                    o["file"], o["line"], o["col"] = os.path.basename(m.group(1)), int(m.group(2)), int(m.group(3))
+                o["stderr"] = err[:300]
+            except subprocess.TimeoutExpired:
+                o["code"] = -1
+                o["stderr"] = "timeout"
+            outs[i] = o
+    ths = [threading.Thread(target=work, args=(k,)) for k in range(nthreads)]
+    for t in ths:
+        t.start()
+    for t in ths:
+        t.join()
+    shutil.rmtree(root, ignore_errors=True)
+    return outs
+
+
 def main(ck):
     rng = ck.rng
     ck.trusted += [
@@ -443,13 +495,38 @@ def main(ck):
     ck.cov["planted_fault_programs"] = nfault
     ck.cov["planted_fault_kinds_checked"] = floc
 
-    # ---- error-location clause, multi-file: the fault is in a function / method / closure of another file
-    nmf = 0
-    mfdist = {}
+    # ---- error-location clause, the PRINTED diagnostic of the origami binary for single-file faults and for parse faults
+    # in an included file
+    nprinted = 0
+    obin = None
     if not ck.replay:
         obin, _o = ck.build_origami()
         if obin is None:
             ck.broken.append("origami-build")
+        else:
+            sub = [dict(p) for p in progs[:(96 if quick else 1200)]]
+            for k, p in enumerate(sub):
+                if p["phase"] == "parse" and p["mode"] == "template" and k % 2 == 0:
+                    p["included"] = rng.choice(["require", "include", "require_once", "include_once"])
+            pouts = run_printed(obin, sub, ck.bdir)
+            for p, o in zip(sub, pouts):
+                nprinted += 1
+                key = "errloc-printed:%s:%s:%s%s" % (p["kind"], p["mode"], p["eol"], ":included" if p.get("included") else "")
+                if o.get("code") in (0, -1) or "line" not in o:
+                    ck.violation(key + ":no-diagnostic", {"case": p, "impl_out": o,
+                                                          "clause": "a printed `in <file>:<line>:<col>` diagnostic and a non-zero exit were expected"})
+                elif o["file"] != o["expect_file"] or not (p["line"] <= o["line"] <= p["line"] + p.get("tol", 0)):
+                    ck.violation(key, {"case": p, "impl_out": o,
+                                       "clause": "printed diagnostic names %s:%s, the faulty construct is at %s:%d" % (
+                                           o.get("file"), o.get("line"), o["expect_file"], p["line"])})
+    ck.cov["printed_diagnostics_checked"] = nprinted
+
+    # ---- error-location clause, multi-file: the fault is in a function / method / closure of another file
+    nmf = 0
+    mfdist = {}
+    if not ck.replay:
+        if obin is None:
+            pass
         else:
             mprogs = multifile_fault_programs(rng, 128 if quick else 1024)
             mouts = run_multifile(obin, mprogs, ck.bdir)
